@@ -6,7 +6,7 @@
    voteproof with more expels than n - Threshold(n) (its reduced suffrage is smaller than the quorum): the class of the
    open finding "expel-partition". *)
 From Coq Require Import ZArith NArith List Bool.
-From MV Require Import C03.Model C03.Float C03.Proofs Gen.C03.
+From MV Require Import C03.Model C03.Float C03.Proofs C03.Proofs2 Gen.C03.
 Import ListNotations.
 Open Scope Z_scope.
 
@@ -56,6 +56,12 @@ Proof. exists suf4, w1, w2, fA, fB. exact partition_witness. Qed.
 (* After the fix: commit (isaac/voteproof.go, baseStuckVoteproof.isValid): a stuck voteproof that passes IsValid is a draw. *)
 Theorem C03_stuck_is_draw : forall v, wf v = true -> v_kind v = Stuck -> v_maj v = None /\ v_result v = RDraw.
 Proof. intros v W K. split; [exact (wf_stuck_no_majority v W K) | exact (stuck_is_draw v W K)]. Qed.
+
+(* Tie: the only comparison the correspondence check skips (several facts with the winning count: Go's answer depends on
+   map iteration order) cannot occur for a voteproof that passes IsValid, so every accepted verdict is compared. *)
+Theorem C03_tally_determined : forall suf v,
+  NoDup (map fst suf) -> len suf < 2 ^ 54 -> wf v = true -> unstable suf v = false.
+Proof. exact tally_determined. Qed.
 
 (* base.NumberOfFaultyNodes still computes f in float64; on the grid n <= 40, t in [67.0,100.0] it never exceeds the
    exact floor used above (and is strictly lower at e.g. n=75, t=68.0), so the theorems hold a fortiori with the code's f. *)
